@@ -420,6 +420,8 @@ func runC08(c CacheCase, o *vk.Obs) string {
 	o.ClassIf(varSize, "variable_size")
 	o.ClassIf(zeroSize > 0, "zero_size_value")
 	o.ClassIf(refused > 0, "refused_put")
+	o.ClassIf(c.Limit > 12, "limit>12")
+	o.ClassIf(c.Limit >= 33, "limit>=33")
 	o.ClassIf(ref.ntEvic, "eviction_after_reorder_or_remove")
 	if knownHits > 0 {
 		o.Class("known_hit_F2")
